@@ -63,6 +63,8 @@ func TestC13(t *testing.T) {
 		}
 	})
 
+	rt.Check(t, rec, "concat", 1500, 30000, func(t *rapid.T) { checkConcatFamily(t, rec) })
+
 	rt.Check(t, rec, "order", 15000, 300000, func(t *rapid.T) {
 		var a, b gen.MV
 		switch rapid.IntRange(0, 4).Draw(t, "paircls") {
@@ -135,6 +137,63 @@ func TestC13(t *testing.T) {
 			rec.Sample("order_pair", map[string]string{"a": a.String(), "b": b.String(), "pa": fmt.Sprintf("%x", pa), "pb": fmt.Sprintf("%x", pb), "cmp": fmt.Sprint(want)})
 		}
 	})
+}
+
+// concatFamily builds strings the way `$` does: s (>= 256 bytes, so it is an
+// SuConcat), t = s $ x (appended in place: shares s's buffer), u = s $ y (a
+// second extension: copied). Every member must pack exactly like the SuStr of
+// its own bytes, whatever was appended to the shared buffer afterwards.
+func checkConcatFamily(t *rapid.T, rec *ev.Rec) {
+	base := strings.Repeat(rapid.StringMatching(`[a-c\x00]{1,3}`).Draw(t, "unit"), rapid.IntRange(130, 300).Draw(t, "reps"))
+	tail := func(label string) string { return rapid.StringMatching(`[a-z\x00\xff]{1,5}`).Draw(t, label) }
+	type mem struct {
+		v    core.Value
+		want string
+	}
+	s := core.OpCat(core.SuStr(base), core.SuStr(tail("s")))
+	ws := base + string(core.ToStr(s)[len(base):])
+	fam := []mem{{s, ws}}
+	n := rapid.IntRange(1, 4).Draw(t, "next")
+	for i := 0; i < n; i++ {
+		from := fam[rapid.IntRange(0, len(fam)-1).Draw(t, "from")]
+		x := tail("x")
+		fam = append(fam, mem{core.OpCat(from.v, core.SuStr(x)), from.want + x})
+	}
+	shared := 0
+	for i, m := range fam {
+		if _, ok := m.v.(core.SuConcat); ok {
+			shared++
+		}
+		ref := core.SuStr(m.want)
+		if !deepEq(m.v, ref) {
+			t.Fatalf("concat family member %d: value is not its own bytes (len %d vs %d)", i, len(core.ToStr(m.v)), len(m.want))
+		}
+		p, pr := packOf(m.v), packOf(ref)
+		if p != pr {
+			t.Fatalf("concat family member %d (%d bytes, later extended through the shared buffer) packs to %d bytes, the equal SuStr to %d bytes", i, len(m.want), len(p), len(pr))
+		}
+		var h uint64 = 17
+		if n := m.v.(core.Packable).PackSize(&h); n != len(p) {
+			t.Fatalf("concat family member %d: PackSize %d != len(Pack) %d", i, n, len(p))
+		}
+		if u := core.Unpack(p); !deepEq(u, ref) {
+			t.Fatalf("concat family member %d does not round-trip", i)
+		}
+		ob := core.SuObjectOf(m.v, core.IntVal(i))
+		if u := core.Unpack(packOf(ob)); !deepEq(u, core.SuObjectOf(ref, core.IntVal(i))) {
+			t.Fatalf("object holding concat family member %d does not round-trip", i)
+		}
+	}
+	for i := range fam {
+		for j := range fam {
+			if got, want := strings.Compare(packOf(fam[i].v), packOf(fam[j].v)), strings.Compare(fam[i].want, fam[j].want); got != want {
+				t.Fatalf("packed order of concat family members %d,%d is %d, value order %d", i, j, got, want)
+			}
+		}
+	}
+	rec.Case(shared >= 2, fmt.Sprintf("concatfam|%d|%d|%s", len(base), len(fam), fam[len(fam)-1].want[len(base):]))
+	rec.Label("concat_family")
+	rec.LabelIf(shared >= 2, "concat_family_with_shared_buffer_members")
 }
 
 // negPrefix: two different negative numbers where the packed form of one is
